@@ -345,9 +345,66 @@ def _docs(tier):
 GRID_SUBDIV = [1, 2, 3, 4, 5, 6, 7, 8, 9, 11, 12, 13, 16, 17, 24, 32, 48, 64, 96, 192]
 
 
+B36 = "0123456789ABCDEFGHIJKLMNOPQRSTUVWXYZ"
+LARGE = dict(quick=[(40, 30), (900, 600)], thorough=[(40, 30), (900, 600), (999, 1200)])
+
+
+def check_large(measures, n_ids, ctx):
+    """size: `measures` measures with 6 objects each over 8 lanes (long notes closed by the LNOBJ in the next measure), n_ids
+    sample ids and n_ids//4 extended tempo ids (two-character base-36 ids far beyond 0Z), a tempo change every 7th measure
+    (integer and extended in turn)."""
+    doc = default_doc()
+    ids = [a + b for a in B36 for b in B36 if a + b not in ("00", "ZZ")]
+    doc["wav"] = {i: f"s{k}.wav" for k, i in enumerate(ids[:n_ids])}
+    ex = ids[: max(1, n_ids // 4)]
+    doc["exbpm"] = {i: f"{100 + (k * 7) % 140}.5" for k, i in enumerate(ex)}
+    doc["lnobj"] = "ZZ"
+    wl = list(doc["wav"])
+    ev, k = [], 0
+    for m in range(measures):
+        for j in range(6):
+            lane = (m + j) % 8
+            pos = F((j * 5 + m) % 16, 16)
+            if (m * 6 + j) % 17 == 8 and m + 1 < measures:
+                ev += [(m, pos, "note", lane, wl[k % len(wl)]), (m + 1, F(0) if lane != (m + 1) % 8 else F(1, 32), "ln_end", lane, "ZZ")]
+            else:
+                ev.append((m, pos, "note", lane, wl[k % len(wl)]))
+            k += 1
+        if m % 7 == 3:
+            ev.append((m, F(1, 2), "t03", None, "%02X" % (60 + (m * 3) % 180)) if m % 14 == 3 else (m, F(1, 4), "t08", None, ex[(m // 7) % len(ex)]))
+    # one lane holds one object per position: keep the first of each clash (ends before notes)
+    out, seen = [], set()
+    for e in sorted(ev, key=lambda e: (e[0], e[1], 0 if e[2] == "ln_end" else 1)):
+        key = (e[0], e[1], e[3]) if e[2] in ("note", "ln_end") else None
+        if key is not None and key in seen:
+            continue
+        seen.add(key)
+        out.append(e)
+    # drop long-note ends whose head was dropped, and heads that would swallow a later note before their end
+    doc["events"] = _wellformed_lns(out)
+    check_doc(doc, dict(devs=[f"large={measures}/{n_ids}"], elems=[]), dict(large=[measures, n_ids]), ctx, key=("large", measures, n_ids))
+
+
+def _wellformed_lns(ev):
+    """With #LNOBJ an end marker closes the previous object of its lane: keep an end only if the object right before it in its
+    lane is a note of the previous measure (its intended head); otherwise drop the end."""
+    bylane = {}
+    for e in sorted(ev, key=lambda e: (e[0], e[1])):
+        if e[2] in ("note", "ln_end"):
+            bylane.setdefault(e[3], []).append(e)
+    drop = set()
+    for lane, es in bylane.items():
+        for i, e in enumerate(es):
+            if e[2] == "ln_end":
+                prev = es[i - 1] if i else None
+                if prev is None or prev[2] != "note" or prev in drop or prev[0] != e[0] - 1:
+                    drop.add(e)
+    return [e for e in ev if e not in drop]
+
+
 def roots(tier, seed):
     n = len(_docs(tier))
-    return [dict(kind="lanes")] + [dict(kind="grid", n=k) for k in GRID_SUBDIV] + [dict(kind="docs", start=s, stop=min(n, s + CHUNK)) for s in range(0, n, CHUNK)]
+    return [dict(kind="large", args=list(a)) for a in LARGE[tier]] + [dict(kind="lanes")] + [dict(kind="grid", n=k) for k in GRID_SUBDIV] + [dict(kind="docs", start=s, stop=min(n, s + CHUNK)) for s in range(0, n, CHUNK)]
 
 
 def check_grid(n, ctx):
@@ -358,6 +415,9 @@ def check_grid(n, ctx):
 
 
 def explore(root, tier, ctx):
+    if root["kind"] == "large":
+        check_large(root["args"][0], root["args"][1], ctx)
+        return
     if root["kind"] == "grid":
         check_grid(root["n"], ctx)
         return
@@ -379,6 +439,8 @@ def explore(root, tier, ctx):
 def replay(case, ctx):
     if "grid" in case:
         check_grid(case["grid"], ctx)
+    elif "large" in case:
+        check_large(case["large"][0], case["large"][1], ctx)
     elif "lane_probe" in case:
         name, lane = case["lane_probe"]
         doc = default_doc()
